@@ -97,10 +97,13 @@ class ResizableFile(object):
         size = len(values)
         currSize = self.__mm.size()
         if offset + size > self.__mm.size():
+            newSize = int(currSize * self.__resizeFactor)
+            while offset + size > newSize:
+                newSize = int(newSize * self.__resizeFactor)
             try:
-                self.__mm.resize(int(self.__mm.size() * self.__resizeFactor))
+                self.__mm.resize(newSize)
             except SystemError:
-                self.__extand(int(self.__mm.size() * self.__resizeFactor) - currSize)
+                self.__extand(newSize - currSize)
         self.__mm[offset:offset + size] = values
 
     def read(self, offset, size):
